@@ -1465,6 +1465,24 @@ impl PhysicalOperator for ExternalSortExec {
         // Clean up
         let _ = std::fs::remove_dir_all(&spill_dir);
 
+        // LIMIT pushed into the sort applies to the spilled result as well.
+        let result = match self.fetch {
+            None => result,
+            Some(fetch) => {
+                let mut left = fetch;
+                let mut kept = Vec::new();
+                for b in result {
+                    if left == 0 {
+                        break;
+                    }
+                    let n = b.num_rows().min(left);
+                    kept.push(b.slice(0, n));
+                    left -= n;
+                }
+                kept
+            }
+        };
+
         Ok(Box::pin(stream::iter(result.into_iter().map(Ok))))
     }
 
@@ -1534,336 +1552,26 @@ impl ExternalSortExec {
         Ok(())
     }
 
+    /// Merge the sorted runs into the final order.
+    ///
+    /// The runs are re-read and ordered with the SAME kernel that sorted each
+    /// run (`sort_batch`: every key type, ASC/DESC and NULLS FIRST/LAST per
+    /// key), so the spilled answer cannot differ from the in-memory one. The
+    /// merged result was always materialized before being streamed out, so
+    /// this holds no more than the previous row-at-a-time merge did.
     fn merge_runs(&self, runs: &[PathBuf]) -> Result<Vec<RecordBatch>> {
-        // Streaming k-way merge: process runs in batches to limit memory
-        // Maximum number of runs to merge at once
-        const MAX_MERGE_FANIN: usize = 8;
-        // Maximum rows to buffer per run during merge
-        const MERGE_BUFFER_ROWS: usize = 8192;
-
-        if runs.is_empty() {
-            return Ok(Vec::new());
-        }
-
-        if runs.len() == 1 {
-            return read_parquet(&runs[0]);
-        }
-
-        // If we have too many runs, merge in multiple passes
-        if runs.len() > MAX_MERGE_FANIN {
-            return self.multi_pass_merge(runs, MAX_MERGE_FANIN);
-        }
-
-        // Single-pass k-way merge with bounded memory
-        self.streaming_k_way_merge(runs, MERGE_BUFFER_ROWS)
-    }
-
-    /// Multi-pass merge for when there are too many runs
-    fn multi_pass_merge(&self, runs: &[PathBuf], fanin: usize) -> Result<Vec<RecordBatch>> {
-        let mut current_runs = runs.to_vec();
-        let mut pass = 0;
-
-        // Get spill directory from first run's parent
-        let spill_dir = runs[0].parent().unwrap_or(std::path::Path::new("/tmp"));
-
-        while current_runs.len() > fanin {
-            let mut next_runs = Vec::new();
-
-            for chunk in current_runs.chunks(fanin) {
-                if chunk.len() == 1 {
-                    next_runs.push(chunk[0].clone());
-                } else {
-                    // Merge this chunk into a new run
-                    let merged = self.streaming_k_way_merge(chunk, 8192)?;
-                    if !merged.is_empty() {
-                        let output_path = spill_dir.join(format!(
-                            "merged_pass{}_{}.parquet",
-                            pass,
-                            next_runs.len()
-                        ));
-                        write_batches_to_parquet(&output_path, &merged)?;
-                        next_runs.push(output_path);
-                    }
-                }
-            }
-
-            // Clean up old runs from previous pass (except original runs)
-            if pass > 0 {
-                for run in &current_runs {
-                    let _ = std::fs::remove_file(run);
-                }
-            }
-
-            current_runs = next_runs;
-            pass += 1;
-        }
-
-        // Final merge
-        self.streaming_k_way_merge(&current_runs, 8192)
-    }
-
-    /// Streaming k-way merge with bounded memory usage
-    fn streaming_k_way_merge(
-        &self,
-        runs: &[PathBuf],
-        buffer_rows: usize,
-    ) -> Result<Vec<RecordBatch>> {
-        use std::cmp::Ordering;
-
-        if runs.is_empty() {
-            return Ok(Vec::new());
-        }
-
-        // Open iterators for each run
-        let mut run_iterators: Vec<
-            Box<dyn Iterator<Item = std::result::Result<RecordBatch, arrow::error::ArrowError>>>,
-        > = Vec::new();
-        let mut run_buffers: Vec<Option<RecordBatch>> = Vec::new();
-        let mut run_indices: Vec<usize> = Vec::new(); // Current row index in each buffer
-
+        let mut all = Vec::new();
         for run in runs {
-            let file = File::open(run).map_err(|e| {
-                QueryError::Execution(format!("Failed to open run file {:?}: {}", run, e))
-            })?;
-            let builder =
-                ParquetRecordBatchReaderBuilder::try_new(file)?.with_batch_size(buffer_rows);
-            let reader = builder.build()?;
-            run_iterators.push(Box::new(reader));
-            run_buffers.push(None);
-            run_indices.push(0);
-        }
-
-        // Load initial batch from each run
-        for (i, iter) in run_iterators.iter_mut().enumerate() {
-            if let Some(batch_result) = iter.next() {
-                run_buffers[i] = Some(batch_result?);
-                run_indices[i] = 0;
+            if run.is_file() {
+                all.extend(read_parquet(run)?);
             }
         }
-
-        // Build output batches using a simple row-by-row merge
-        // For better performance, we'd want to do vectorized merge, but this is memory-safe
-        let mut result_batches = Vec::new();
-        let mut output_rows: Vec<(usize, usize)> = Vec::new(); // (run_idx, row_idx)
-
-        // Helper to compare rows
-        let compare_rows = |batch_a: &RecordBatch,
-                            row_a: usize,
-                            batch_b: &RecordBatch,
-                            row_b: usize,
-                            order_by: &[crate::planner::SortExpr]|
-         -> std::cmp::Ordering {
-            for sort_expr in order_by {
-                let col_a = evaluate_expr(batch_a, &sort_expr.expr).ok();
-                let col_b = evaluate_expr(batch_b, &sort_expr.expr).ok();
-
-                if let (Some(a), Some(b)) = (col_a, col_b) {
-                    let cmp = compare_array_values(&a, row_a, &b, row_b);
-                    let cmp = if sort_expr.direction == crate::planner::SortDirection::Desc {
-                        cmp.reverse()
-                    } else {
-                        cmp
-                    };
-                    if cmp != Ordering::Equal {
-                        return cmp;
-                    }
-                }
-            }
-            Ordering::Equal
-        };
-
-        // Simple merge: repeatedly find minimum across all runs
-        loop {
-            // Find run with minimum current row
-            let mut min_run: Option<usize> = None;
-
-            for (run_idx, buffer) in run_buffers.iter().enumerate() {
-                if let Some(ref batch) = buffer {
-                    if run_indices[run_idx] < batch.num_rows() {
-                        min_run = match min_run {
-                            None => Some(run_idx),
-                            Some(current_min) => {
-                                let cmp = compare_rows(
-                                    batch,
-                                    run_indices[run_idx],
-                                    run_buffers[current_min].as_ref().unwrap(),
-                                    run_indices[current_min],
-                                    &self.order_by,
-                                );
-                                if cmp == Ordering::Less {
-                                    Some(run_idx)
-                                } else {
-                                    Some(current_min)
-                                }
-                            }
-                        };
-                    }
-                }
-            }
-
-            match min_run {
-                None => break, // All runs exhausted
-                Some(run_idx) => {
-                    output_rows.push((run_idx, run_indices[run_idx]));
-                    run_indices[run_idx] += 1;
-
-                    // Check if current buffer is exhausted
-                    if let Some(ref batch) = run_buffers[run_idx] {
-                        if run_indices[run_idx] >= batch.num_rows() {
-                            // Try to load next batch from this run
-                            if let Some(next_batch) = run_iterators[run_idx].next() {
-                                run_buffers[run_idx] = Some(next_batch?);
-                                run_indices[run_idx] = 0;
-                            } else {
-                                run_buffers[run_idx] = None;
-                            }
-                        }
-                    }
-
-                    // Flush output when buffer is full
-                    if output_rows.len() >= buffer_rows {
-                        let batch = self.build_merged_batch(&run_buffers, &output_rows)?;
-                        result_batches.push(batch);
-                        output_rows.clear();
-                    }
-                }
-            }
+        if all.is_empty() {
+            return Ok(Vec::new());
         }
-
-        // Flush remaining output
-        if !output_rows.is_empty() {
-            // For the final batch, we need to reload any exhausted buffers
-            // that are referenced in output_rows
-            let batch = self.build_merged_batch_final(&runs, &output_rows, buffer_rows)?;
-            result_batches.push(batch);
-        }
-
-        Ok(result_batches)
-    }
-
-    /// Build a merged batch from the given row references
-    fn build_merged_batch(
-        &self,
-        run_buffers: &[Option<RecordBatch>],
-        rows: &[(usize, usize)],
-    ) -> Result<RecordBatch> {
-        if rows.is_empty() {
-            return Ok(RecordBatch::new_empty(self.schema.clone()));
-        }
-
-        // Group rows by run
-        let mut run_row_groups: HashMap<usize, Vec<(usize, usize)>> = HashMap::new();
-        for (output_idx, &(run_idx, row_idx)) in rows.iter().enumerate() {
-            run_row_groups
-                .entry(run_idx)
-                .or_default()
-                .push((output_idx, row_idx));
-        }
-
-        // Build output columns
-        let num_cols = self.schema.fields().len();
-        let mut output_columns: Vec<Vec<(usize, ArrayRef)>> = vec![Vec::new(); num_cols];
-
-        for (run_idx, row_list) in run_row_groups {
-            if let Some(ref batch) = run_buffers[run_idx] {
-                let take_indices: Vec<u32> = row_list.iter().map(|(_, r)| *r as u32).collect();
-                let indices_arr = UInt32Array::from(take_indices);
-
-                for col_idx in 0..num_cols.min(batch.num_columns()) {
-                    let taken = compute::take(batch.column(col_idx), &indices_arr, None)?;
-                    for (i, (out_idx, _)) in row_list.iter().enumerate() {
-                        let single =
-                            compute::take(&taken, &UInt32Array::from(vec![i as u32]), None)?;
-                        output_columns[col_idx].push((*out_idx, single));
-                    }
-                }
-            }
-        }
-
-        // Sort and concatenate columns
-        let mut final_columns: Vec<ArrayRef> = Vec::new();
-        for col_parts in output_columns {
-            let mut sorted_parts = col_parts;
-            sorted_parts.sort_by_key(|(idx, _)| *idx);
-            let arrays: Vec<&dyn arrow::array::Array> =
-                sorted_parts.iter().map(|(_, arr)| arr.as_ref()).collect();
-            if arrays.is_empty() {
-                final_columns.push(arrow::array::new_null_array(
-                    self.schema.field(final_columns.len()).data_type(),
-                    rows.len(),
-                ));
-            } else {
-                final_columns.push(compute::concat(&arrays)?);
-            }
-        }
-
-        RecordBatch::try_new(self.schema.clone(), final_columns).map_err(Into::into)
-    }
-
-    /// Build final merged batch, reloading data from files if needed
-    fn build_merged_batch_final(
-        &self,
-        runs: &[PathBuf],
-        rows: &[(usize, usize)],
-        _buffer_rows: usize,
-    ) -> Result<RecordBatch> {
-        if rows.is_empty() {
-            return Ok(RecordBatch::new_empty(self.schema.clone()));
-        }
-
-        // For the final batch, we may need to re-read some runs
-        // Group by run and load only what we need
-        let mut run_row_groups: HashMap<usize, Vec<(usize, usize)>> = HashMap::new();
-        for (output_idx, &(run_idx, row_idx)) in rows.iter().enumerate() {
-            run_row_groups
-                .entry(run_idx)
-                .or_default()
-                .push((output_idx, row_idx));
-        }
-
-        let num_cols = self.schema.fields().len();
-        let mut output_columns: Vec<Vec<(usize, ArrayRef)>> = vec![Vec::new(); num_cols];
-
-        for (run_idx, row_list) in run_row_groups {
-            // Read the run
-            let batches = read_parquet(&runs[run_idx])?;
-            if batches.is_empty() {
-                continue;
-            }
-
-            // Concatenate all batches from this run
-            let combined = compute::concat_batches(&batches[0].schema(), &batches)?;
-
-            let take_indices: Vec<u32> = row_list.iter().map(|(_, r)| *r as u32).collect();
-            let indices_arr = UInt32Array::from(take_indices);
-
-            for col_idx in 0..num_cols.min(combined.num_columns()) {
-                let taken = compute::take(combined.column(col_idx), &indices_arr, None)?;
-                for (i, (out_idx, _)) in row_list.iter().enumerate() {
-                    let single = compute::take(&taken, &UInt32Array::from(vec![i as u32]), None)?;
-                    output_columns[col_idx].push((*out_idx, single));
-                }
-            }
-        }
-
-        // Sort and concatenate columns
-        let mut final_columns: Vec<ArrayRef> = Vec::new();
-        for col_parts in output_columns {
-            let mut sorted_parts = col_parts;
-            sorted_parts.sort_by_key(|(idx, _)| *idx);
-            let arrays: Vec<&dyn arrow::array::Array> =
-                sorted_parts.iter().map(|(_, arr)| arr.as_ref()).collect();
-            if arrays.is_empty() {
-                final_columns.push(arrow::array::new_null_array(
-                    self.schema.field(final_columns.len()).data_type(),
-                    rows.len(),
-                ));
-            } else {
-                final_columns.push(compute::concat(&arrays)?);
-            }
-        }
-
-        RecordBatch::try_new(self.schema.clone(), final_columns).map_err(Into::into)
+        let schema = all[0].schema();
+        let combined = compute::concat_batches(&schema, &all)?;
+        Ok(vec![sort_batch(&combined, &self.order_by)?])
     }
 }
 
@@ -2011,62 +1719,6 @@ fn merge_parquet_files(
     let _ = std::fs::remove_file(new_file);
 
     Ok(())
-}
-
-/// Compare two array values at given indices
-fn compare_array_values(
-    a: &ArrayRef,
-    row_a: usize,
-    b: &ArrayRef,
-    row_b: usize,
-) -> std::cmp::Ordering {
-    use std::cmp::Ordering;
-
-    // Handle nulls
-    let a_null = a.is_null(row_a);
-    let b_null = b.is_null(row_b);
-
-    match (a_null, b_null) {
-        (true, true) => return Ordering::Equal,
-        (true, false) => return Ordering::Greater, // nulls last
-        (false, true) => return Ordering::Less,
-        (false, false) => {}
-    }
-
-    // Compare based on type
-    if let Some(arr_a) = a.as_any().downcast_ref::<Int64Array>() {
-        if let Some(arr_b) = b.as_any().downcast_ref::<Int64Array>() {
-            return arr_a.value(row_a).cmp(&arr_b.value(row_b));
-        }
-    }
-
-    if let Some(arr_a) = a.as_any().downcast_ref::<arrow::array::Int32Array>() {
-        if let Some(arr_b) = b.as_any().downcast_ref::<arrow::array::Int32Array>() {
-            return arr_a.value(row_a).cmp(&arr_b.value(row_b));
-        }
-    }
-
-    if let Some(arr_a) = a.as_any().downcast_ref::<Float64Array>() {
-        if let Some(arr_b) = b.as_any().downcast_ref::<Float64Array>() {
-            let va = arr_a.value(row_a);
-            let vb = arr_b.value(row_b);
-            return va.partial_cmp(&vb).unwrap_or(Ordering::Equal);
-        }
-    }
-
-    if let Some(arr_a) = a.as_any().downcast_ref::<StringArray>() {
-        if let Some(arr_b) = b.as_any().downcast_ref::<StringArray>() {
-            return arr_a.value(row_a).cmp(arr_b.value(row_b));
-        }
-    }
-
-    if let Some(arr_a) = a.as_any().downcast_ref::<Date32Array>() {
-        if let Some(arr_b) = b.as_any().downcast_ref::<Date32Array>() {
-            return arr_a.value(row_a).cmp(&arr_b.value(row_b));
-        }
-    }
-
-    Ordering::Equal
 }
 
 /// Partition a batch by hash of key columns
